@@ -535,9 +535,9 @@ func genCase(r *rng.R, opt *config.PersistOptions, wb bool, a c07x.Alphabet, nop
 	return c
 }
 
-// the write-back probe of DESIGN.md S10, as heartbeats handled one at a time
-func writeBackProbe(opt *config.PersistOptions) hcase {
-	c := hcase{WB: true, tags: map[string]int{"probe:write-back-resurrection": 1}}
+// the history of DESIGN.md S10 (repaired by /repo e76651c), heartbeats handled one at a time: regression case
+func writeBackRegression(opt *config.PersistOptions) hcase {
+	c := hcase{WB: true, tags: map[string]int{"regression:write-back-resurrection(e76651c)": 1}}
 	w := newWorld(true, opt)
 	defer w.close()
 	g := &gen{r: rng.New(1), w: w, c: &c, ids: map[uint64]bool{}, last: time.Now()}
@@ -649,7 +649,7 @@ func main() {
 	if *replay != "" {
 		runFixed(*replay, true)
 	} else {
-		emit(writeBackProbe(opt))
+		emit(writeBackRegression(opt))
 		emit(termProbe(opt))
 		master := rng.New(*seed)
 		small, large := c07x.Small(), c07x.Large()
